@@ -88,7 +88,7 @@ class Built:
         self.leaf_rx: list[Any] = []
 
 
-def build_composed(tree: Any, rxs: list[Any], leaf_naz: list[bool], top_naz: bool) -> Built:
+def build_composed(tree: Any, rxs: list[Any], leaf_naz: list[bool], top_naz: bool, build_twice: bool = False) -> Built:
     """Build through the public composition API (engines as operands, sub-engines)."""
     from frequenz.quantities import Power
     from frequenz.sdk.timeseries.formula_engine._formula_engine import FormulaEngine
@@ -118,6 +118,10 @@ def build_composed(tree: Any, rxs: list[Any], leaf_naz: list[bool], top_naz: boo
         if k == "sub":
             x = rec(t[1])
             counter[0] += 1
+            if build_twice:
+                # the same builder object built before, under the same name, with the other setting: the engine asked
+                # for now must still honour *its* setting
+                b.engines.append(x.build(f"sub{counter[0]}", nones_are_zeros=not t[2]))
             e = x.build(f"sub{counter[0]}", nones_are_zeros=t[2])
             b.engines.append(e)
             return e
@@ -138,6 +142,8 @@ def build_composed(tree: Any, rxs: list[Any], leaf_naz: list[bool], top_naz: boo
     if isinstance(top, FormulaEngine):
         b.engine = top
     else:
+        if build_twice:
+            b.engines.append(top.build("top", nones_are_zeros=not top_naz))
         b.engine = top.build("top", nones_are_zeros=top_naz)
         b.engines.append(b.engine)
     return b
